@@ -1,3 +1,4 @@
+import Mdsort.Proofs.Opts
 import Mdsort.Proofs.World
 import Mdsort.Proofs.WorldFrameMain
 import Mdsort.Proofs.WorldStdinExample
@@ -697,6 +698,47 @@ theorem C04_command_signal_is_error_false : ¬ C04_command_signal_is_error := by
     (by decide +kernel) (by decide) rfl
   rw [Proofs.eval_command] at h1
   revert h1
+  decide +kernel
+
+/-! ## The command line (package ce13): exit statuses before the configuration is read -/
+
+/-- The exit status of a run from `argv`.  A refused command line (usage, `-D` errors) and a `readenv` / `defaultconf`
+failure end the run with status 1 - ALSO when `-` is among the arguments: `usage()` calls `exit(1)`, the `-D` errors
+`goto out` before the operand `-` has been looked at (`OPTION_STDIN` is not set yet, so `EX_TEMPFAIL` does not
+apply), `errc(1, ...)` exits.  Every other run is `mainP` in the modes the options select, and its status is the
+table of `C04_status_table` for THAT mode: 75 / 1 / 0 iff `-` is the operand. -/
+theorem C04_usage_status (permute : Bool) (args : List Bytes) (raw : RawEnv) (env : PEnv) (orc : EvalOracles)
+    (rxOk : Pat → Bool) (confText : Bytes) (files : Files) (input : Bytes) (w : World) (plan : Plan) :
+    let r := (runPlan plan (mainArgs permute args raw env orc rxOk confText files input) w 0 []).1
+    (∀ e, parseArgs permute args = .error e → r.1 = 1) ∧
+    (∀ o, parseArgs permute args = .ok o →
+      (r.1 = 1 ∧ Proofs.callsOf plan (mainArgs permute args raw env orc rxOk confText files input) w = []) ∨
+      ∃ home tmpdir confpath, startPaths raw o.confpath = .ok (home, tmpdir, confpath) ∧
+        r.1 = exitStatus (Proofs.Opts.runEnv env o home tmpdir confpath) r.2) := by
+  intro r
+  refine ⟨fun e h => ?_, fun o h => ?_⟩
+  · show (runPlan plan (mainArgs permute args raw env orc rxOk confText files input) w 0 []).1.1 = 1
+    rw [Proofs.Opts.mainArgs_refused permute args raw env orc rxOk confText files input e h, (Proofs.Opts.ret_run plan _ w).1]; rfl
+  · rcases Proofs.Opts.mainArgs_accepted permute args raw env orc rxOk confText files input o h with h1 | ⟨home, tmpdir, confpath, ok, conf, hs, h2⟩
+    · left
+      show (runPlan plan (mainArgs permute args raw env orc rxOk confText files input) w 0 []).1.1 = 1 ∧ _
+      rw [h1]
+      exact ⟨by rw [(Proofs.Opts.ret_run plan _ w).1]; rfl, (Proofs.Opts.ret_run plan _ w).2⟩
+    · right
+      refine ⟨home, tmpdir, confpath, hs, ?_⟩
+      show (runPlan plan (mainArgs permute args raw env orc rxOk confText files input) w 0 []).1.1 = exitStatus _ (runPlan plan (mainArgs permute args raw env orc rxOk confText files input) w 0 []).1.2
+      rw [h2]
+      exact (C04_status_table (Proofs.Opts.runEnv env o home tmpdir confpath) orc ok conf files input w plan).1
+
+/-- Non-vacuity: refused command lines that DO contain the operand `-` (status 1, not 75), and an accepted one whose
+mode is stdin. -/
+example :
+    parseArgs true ["-x".toUTF8.toList, "-".toUTF8.toList] = .error .usage ∧
+    parseArgs true ["-".toUTF8.toList, "-x".toUTF8.toList] = .error .usage ∧
+    parseArgs true ["-".toUTF8.toList, "-D".toUTF8.toList, "a".toUTF8.toList] = .error (.macroSeparator "a".toUTF8.toList) ∧
+    parseArgs true ["-".toUTF8.toList, "extra".toUTF8.toList] = .error .usage ∧
+    (parseArgs true ["-".toUTF8.toList]).toOption.map (·.stdinMode) = some true ∧
+    (parseArgs true ["--".toUTF8.toList, "-".toUTF8.toList]).toOption.map (·.stdinMode) = some true := by
   decide +kernel
 
 end Mdsort.Props
